@@ -24,7 +24,7 @@ RULE = ("all directed graphs on 1 and 2 input object types with edge kind in {no
 KINDS = {"none": None, "T": lambda t: t, "T!": lambda t: NN(t), "[T]": lambda t: L(t), "[T!]!": lambda t: NN(L(NN(t)))}
 NULLABLE_KINDS = ["none", "T", "[T]"]
 EXTRA_KINDS = {"[[T]]": lambda t: L(L(t)), "[T]!": lambda t: NN(L(t)), "[T!]": lambda t: L(NN(t))}
-FLOOR = {"graphs": 1164, "graphs-with-cycle": 500, "rustc-accepted": 1100, "round-trips": 300, "fragment-patterns": 8, "prescreen-agrees": 1100}
+FLOOR = {"graphs": 1164, "graphs-with-cycle": 500, "rustc-accepted": 1100, "round-trips": 300, "fragment-patterns": 25, "prescreen-agrees": 1100}
 
 
 def graph_schema(names_, edges, one_of):
@@ -153,6 +153,9 @@ def prescreen(inspect):
 def graph_case(cid, ns, edges, one, rng, fmt="sdl"):
     s = graph_schema(ns, edges, one)
     vs = [{"name": n.lower(), "type": T(n), "default": None} for n in ns]
+    if len(ns) >= 2 and sum(ord(ch) for ch in cid) % 2 == 0:
+        # only the first type is a variable: the others are reached through its fields only
+        vs = vs[:1]
     doc = {"operations": [{"kind": "query", "name": "Q", "vars": vs, "sel": [["field", None, "x", None, None]]}], "fragments": []}
     c = C.make_case(cid, s, doc, rng, options={}, fmt=fmt)
     c["graph"] = {"types": ns, "edges": {"%s->%s" % k: v for k, v in edges.items() if v != "none"}, "one_of": [n for n in ns if one[n]]}
@@ -199,6 +202,23 @@ def fragment_patterns(rng):
     P.append(("interface-recursion", [f("i", [["spread", "IF"]])], [{"name": "IF", "on": "I", "sel": [["typename"], f("id"), f("i", [["spread", "IF"]])]}]))
     P.append(("two-recursive-spreads", [f("t", [["spread", "F"], ["spread", "G"]])], [{"name": "F", "on": "TT", "sel": [f("id"), f("t", [["spread", "F"]])]}, {"name": "G", "on": "TT", "sel": [f("name"), f("ts", [["spread", "G"]])]}]))
     P.append(("self-spread-under-same-field-twice", [f("t", [["spread", "F"]])], [{"name": "F", "on": "TT", "sel": [f("id"), f("t", [["spread", "F"]]), f("t", [["spread", "F"]], alias="again")]}]))
+    P.append(("plain fragment defined first spreads into a mutual pair", [f("t", [["spread", "Card"]])],
+              [{"name": "Card", "on": "TT", "sel": [f("name"), ["spread", "A"]]},
+               {"name": "A", "on": "TT", "sel": [f("id"), f("o", [["spread", "B"]])]}, {"name": "B", "on": "OO", "sel": [f("k"), f("t", [["spread", "A"]])]}]))
+    P.append(("self-recursive fragment spreads a mutual pair before itself", [f("t", [["spread", "S"]])],
+              [{"name": "S", "on": "TT", "sel": [f("o", [["spread", "B"]]), f("t", [["spread", "S"]]), f("name")]},
+               {"name": "A", "on": "TT", "sel": [f("id"), f("o", [["spread", "B"]])]}, {"name": "B", "on": "OO", "sel": [f("k"), f("t", [["spread", "A"]])]}]))
+    P.append(("tail of two plain fragments into a three-cycle", [f("t", [["spread", "T1"]])],
+              [{"name": "T1", "on": "TT", "sel": [f("name"), f("o", [["spread", "T2"]])]}, {"name": "T2", "on": "OO", "sel": [f("k"), f("t", [["spread", "A"]])]},
+               {"name": "A", "on": "TT", "sel": [f("id"), f("o", [["spread", "B"]])]}, {"name": "B", "on": "OO", "sel": [f("k", alias="kb"), f("third", [["spread", "C"]])]},
+               {"name": "C", "on": "Third", "sel": [f("z"), f("t", [["spread", "A"]])]}]))
+    # every pattern also with its fragment definitions in reverse and in shuffled order (visit order of the analysis)
+    for (label, sel, frags) in list(P):
+        if len(frags) >= 2:
+            P.append((label + " [reversed definitions]", sel, list(reversed(frags))))
+            sh = list(frags)
+            rng.shuffle(sh)
+            P.append((label + " [shuffled definitions]", sel, sh))
     out = []
     for i, (label, sel, frags) in enumerate(P):
         doc = {"operations": [{"kind": "query", "name": "Q", "vars": [], "sel": sel}], "fragments": frags}
